@@ -202,11 +202,19 @@ def c04step (d : D) (op : String) (impl : String) : D × String :=
       | some s =>
         match run d.m (persisterRelease s.id) with
         | some m2 =>
-          ans { d with m := m2 } "-" "ok" (["persister-release"] ++ (if totalCloses m2 > totalCloses d.m then ["closer-ran"] else []))
+          ans { d with m := m2 } "-" "ok" (["persister-release"] ++ (if _x != "0" then ["persist-error"] else [])
+            ++ (if totalCloses m2 > totalCloses d.m then ["closer-ran"] else []))
         | none => ans d "rejected:persisted" "na"
       | none => ans d "rejected:persisted-unknown-snapshot" "na"
   | ["batch", ops] =>
       if impl == "ok" then ans { d with abs := applyBatch d.abs (ops.splitOn ",") } "ok" "ok" ["batch"]
+      else ans d "ok" "ok"
+  | ["batchf", ops] =>
+      -- a batch whose first persist attempt meets an injected failure: it is applied either way (the
+      -- introduction happened); a safe batch reports the persist error, an unsafe one (or one whose failure
+      -- was consumed by a concurrent merge) reports success
+      if impl == "ok" || impl == "err:persist" then
+        ans { d with abs := applyBatch d.abs (ops.splitOn ",") } impl "ok" ["batch", "batch-persist-fails"]
       else ans d "ok" "ok"
   | ["open", slot, sname, _epoch] =>
       match d.m.root, d.snapByName sname, slot.toNat? with
